@@ -139,7 +139,10 @@ def split_lines(text):
 
 
 is_field_declaration = re.compile(r'^[a-z]+[a-z0-9\-]*:.*$', re.IGNORECASE).match
-is_field_continuation = re.compile(r'^[ \t]+[\S]+.*$', re.IGNORECASE).match
+# a continuation line is indented with a space or a tab and is not blank: the
+# first character after the indentation may be any character, including a
+# no-break or ideographic space
+is_field_continuation = re.compile(r'^[ \t]+.*[\S]+.*$', re.IGNORECASE).match
 
 
 @attr.s(slots=True)
